@@ -33,7 +33,7 @@ ANCHORS = [
 FLOORS = {'*': {
     'cfg:sync:None': 100, 'cfg:sync:0': 20, 'cfg:sync:1': 20, 'cfg:sync:3': 20,
     'cfg:async:None': 100, 'cfg:async:0': 20, 'cfg:async:1': 20, 'cfg:async:3': 20,
-    'flavour:async-plain': 300, 'flavour:sync-inert': 300, 'flavour:async-inert': 300, 'flavour:sync-debuglog': 300, 'flavour:async-debuglog': 300, 'flavour:async-sequential': 300, 'branch:none-return': 10, 'branch:-32700': 50, 'branch:-32600': 50, 'branch:batch-response': 50,
+    'flavour:async-plain': 300, 'flavour:sync-inert': 300, 'flavour:async-inert': 300, 'flavour:sync-debuglog': 300, 'flavour:async-debuglog': 300, 'flavour:async-sequential': 300, 'flavour:sync-warnerr': 200, 'flavour:async-warnerr': 200, 'branch:none-return': 10, 'branch:-32700': 50, 'branch:-32600': 50, 'branch:batch-response': 50,
     'branch:single-response': 50, 'ambient:dispatch-wrapper': 20, 'ambient:extract_error_codes-ensure': 20, 'input:not-json': 50, 'input:batch': 50, 'input:bigint': 4, 'input:depth>=32': 4,
 }}
 
@@ -61,7 +61,7 @@ def gen(ctx):
         for is_async, mb in configs_for(is_batch):
             yield 'text', {'family': family, 'text': text, 'is_async': is_async, 'max_batch': mb}
         if k % 4 == 0:
-            fl = serverside.EXTRA_FLAVOURS[(k // 4) % len(serverside.EXTRA_FLAVOURS)]
+            fl = serverside.TOTALITY_FLAVOURS[(k // 4) % len(serverside.TOTALITY_FLAVOURS)]
             yield 'text', {'family': family, 'text': text, 'is_async': fl.startswith('async'), 'max_batch': None, 'flavour': fl}
 
     yield 'ambient_suite', {}
